@@ -605,7 +605,7 @@ def emit_module(vf, exp, path, mod, depth, stats, leafs, parent_mod=None):
             if 'export_types' in t or 'serde' in t or 'Serialize' in t or 'source_repr' in t or 'val_gen' in t:
                 continue
             if 'cell_mask_id_vec' in t:
-                t = t.replace('cell_mask_id_vec,', '').replace('cell_mask_id_vec', '')  # cell_mask_id_vec is not (yet) in this unit
+                pass
             vf.emit(ind + '    #[allow(unused_imports)] ' + t)
     fr = classify(exp, mod)
     subs = [c for c in mod.children if c.kind == 'mod' and c.name != 'export_types']
